@@ -62,8 +62,41 @@ theorem seps_head_not_digit (seps : List Byte) (hs : Seps seps) (d : Byte) (rest
       have : isSpace x = true := by simp at hsp; exact hsp.1
       exact ⟨x, _, rfl, space_not_digit this⟩
 
+/-- the sentinel test of the repaired `ReadInteger` changes nothing unless the extracted value is `S_INT_NULL` -/
+theorem readIntegerS_of (cfg : LexCfg) (d : Option (List Byte)) (s : IStream) (e : Sev)
+    (h : intSentinel cfg (readInteger cfg d s e).1 = false) : readIntegerS cfg d s e = readInteger cfg d s e := by
+  unfold readIntegerS
+  generalize readInteger cfg d s e = r at h ⊢
+  obtain ⟨v, s1, e1⟩ := r
+  simp only at h ⊢
+  simp [h]
+
+theorem intSentinel_none (cfg : LexCfg) : intSentinel cfg none = false := by simp [intSentinel]
+theorem intSentinel_some (cfg : LexCfg) (v : Int) (h : v ≠ IStream.longMax) : intSentinel cfg (some v) = false := by
+  simp [intSentinel, h]
+
+/-- likewise `ReadReal` / `ReadNumber` unless the converted value is `S_REAL_NULL` / `S_NUMBER_NULL` -/
+theorem readRealS_of (ops : FloatOps F) (cfg : LexCfg) (d : Option (List Byte)) (s : IStream) (e : Sev)
+    (v : Option F) (s1 : IStream) (e1 : Sev) (hr : readReal ops cfg d s e = .ok (v, s1, e1)) (h : realSentinel ops v = false) :
+    readRealS ops cfg d s e = .ok (v, s1, e1) := by
+  simp [readRealS, hr, h]
+
+theorem readNumberS_of (ops : FloatOps F) (cfg : LexCfg) (d : Option (List Byte)) (s : IStream) (e : Sev)
+    (h : realSentinel ops (readNumber ops cfg d s e).1 = false) : readNumberS ops cfg d s e = readNumber ops cfg d s e := by
+  unfold readNumberS
+  generalize readNumber ops cfg d s e = r at h ⊢
+  obtain ⟨v, s1, e1⟩ := r
+  simp only at h ⊢
+  simp [h]
+
+theorem realSentinel_none (ops : FloatOps F) : realSentinel ops none = false := rfl
+theorem realSentinel_some (ops : FloatOps F) (v : F) (h : ops.isRealNull v = false) : realSentinel ops (some v) = false := h
+
 theorem scalarNodeReadAttr_integer (env : Env F) (opt : Bool) (s : IStream) :
-    attrSTEPread.scalarNodeReadAttr env .integer opt s = scalarNodeRead env .integer s := by
+    attrSTEPread.scalarNodeReadAttr env .integer opt s =
+      .ok ((readIntegerS env.lex (some attrDelims) s .null).2.2,
+           valueToAtom (intValue (readIntegerS env.lex (some attrDelims) s .null).1 : Value F),
+           (readIntegerS env.lex (some attrDelims) s .null).2.1) := by
   unfold attrSTEPread.scalarNodeReadAttr
   rfl
 
@@ -74,6 +107,39 @@ theorem scalarNodeRead_integer (env : Env F) (s : IStream) :
            (readInteger env.lex (some attrDelims) s .null).2.1) := by
   unfold scalarNodeRead
   rfl
+
+/-- `ReadInteger` on a token of the grammar (fits `long`) followed by any layout and a delimiter -/
+theorem readInteger_tok (lex : LexCfg) (hcfg : lex.criSkipsComments = true) (tok : List Byte) (htok : isInteger tok = true)
+    (hlo : longMin ≤ denoteInteger tok) (hhi : denoteInteger tok ≤ longMax)
+    (l : List Byte) (sk : Bool) (seps : List Byte) (hs : Seps seps) (d : Byte) (rest : List Byte) (hd : d = 44 ∨ d = 41) :
+    readInteger lex (some attrDelims) (G l (tok ++ (seps ++ d :: rest)) sk) .null =
+      (some (denoteInteger tok), G (seps.reverse ++ (tok.reverse ++ l)) (d :: rest) sk, .null) := by
+  have hnd := seps_head_not_digit seps hs d rest hd
+  have hscan := scanInt_token longMin longMax l tok (seps ++ d :: rest) htok (Or.inr hnd)
+  obtain ⟨c, u, rfl, hcs, _, _, _⟩ := isInteger_head tok htok
+  simp only [List.cons_append] at hscan ⊢
+  simp only [readInteger]
+  rw [show (G l (c :: (u ++ (seps ++ d :: rest))) sk).ws = G l (c :: (u ++ (seps ++ d :: rest))) sk from ws_good0 l c _ sk hcs]
+  rw [extractLong_G l c _ sk hcs, hscan]
+  have h1 : ¬ denoteInteger (c :: u) < longMin := by omega
+  have h2 : ¬ denoteInteger (c :: u) > longMax := by omega
+  have hne : (seps ++ d :: rest).isEmpty = false := by
+    obtain ⟨x, y, hxy, _⟩ := hnd
+    rw [hxy]; rfl
+  have hcri := cri_seps lex hcfg seps hs ((c :: u).reverse ++ l) rest d false sk Sev.null hd
+  simp only [List.reverse_cons, List.append_assoc, List.singleton_append] at hcri
+  simp [h1, h2, hne, IStream.failed, Sev.warnIf, hcri]
+
+/-- … and with the sentinel test of the repaired reader, for a value other than `S_INT_NULL` -/
+theorem readIntegerS_tok (lex : LexCfg) (hcfg : lex.criSkipsComments = true) (tok : List Byte) (htok : isInteger tok = true)
+    (hlo : longMin ≤ denoteInteger tok) (hhi : denoteInteger tok < longMax)
+    (l : List Byte) (sk : Bool) (seps : List Byte) (hs : Seps seps) (d : Byte) (rest : List Byte) (hd : d = 44 ∨ d = 41) :
+    readIntegerS lex (some attrDelims) (G l (tok ++ (seps ++ d :: rest)) sk) .null =
+      (some (denoteInteger tok), G (seps.reverse ++ (tok.reverse ++ l)) (d :: rest) sk, .null) := by
+  have h := readInteger_tok lex hcfg tok htok hlo (by omega) l sk seps hs d rest hd
+  rw [readIntegerS_of, h]
+  rw [h]
+  exact intSentinel_some lex _ (by omega)
 
 /-- an INTEGER token of the grammar whose value fits `long` and is not the in-band null: read to the value it denotes,
     no error, the stream rests at the delimiter -/
@@ -96,19 +162,12 @@ theorem attr_integer (env : Env F) (strict : Bool) (a : AttrD) (hty : a.ty = .on
   have e44 : (c == 44) = false := by simpa using h44
   have e41 : (c == 41) = false := by simpa using h41
   simp only [hder, Bool.false_eq_true, if_false, e36, e44, e41, Bool.or_self, hty]
-  rw [scalarNodeReadAttr_integer, scalarNodeRead_integer]
-  simp only [readInteger]
-  rw [show (G l (c :: (u ++ (seps ++ d :: rest))) sk).ws = G l (c :: (u ++ (seps ++ d :: rest))) sk from ws_good0 l c _ sk hcs]
-  rw [extractLong_G l c _ sk hcs, hscan]
-  have h1 : ¬ denoteInteger (c :: u) < longMin := by omega
-  have h2 : ¬ denoteInteger (c :: u) > longMax := by omega
+  rw [scalarNodeReadAttr_integer]
+  have hr := readIntegerS_tok env.lex hcfg (c :: u) htok hlo hhi l sk seps hs d rest hd
+  simp only [List.cons_append] at hr
+  rw [hr]
   have h3 : (denoteInteger (c :: u) == longMax) = false := by simp; omega
-  have hne : (seps ++ d :: rest).isEmpty = false := by
-    obtain ⟨x, y, hxy, _⟩ := seps_head_not_digit seps hs d rest hd
-    rw [hxy]; rfl
-  have hcri := cri_seps env.lex hcfg seps hs ((c :: u).reverse ++ l) rest d false sk Sev.null hd
-  simp only [List.reverse_cons, List.append_assoc, List.singleton_append] at hcri
-  simp [h1, h2, intValue, h3, hne, IStream.failed, Sev.warnIf, valueToAtom, hcri]
+  simp [intValue, h3, valueToAtom]
 
 theorem extractInt32_G (l : List Byte) (c : Byte) (t : List Byte) (sk : Bool) (hc : isSpace c = false)
     (v : Int) (l' r' : List Byte) (hscan : scanInt longMin longMax l (c :: t) = (⟨v, false⟩, l', r'))
@@ -192,28 +251,6 @@ theorem attr_ref (env : Env F) (strict : Bool) (a : AttrD) (tg : String) (hty : 
     rw [hxy]; rfl
   have hcri := cri_seps env.lex hcfg seps hs (ds.reverse ++ 35 :: l) rest d false sk Sev.null hd
   simp [hne2, IStream.failed, hcri, hfound]
-
-/-- `ReadInteger` on a token of the grammar (fits `long`) followed by any layout and a delimiter -/
-theorem readInteger_tok (lex : LexCfg) (hcfg : lex.criSkipsComments = true) (tok : List Byte) (htok : isInteger tok = true)
-    (hlo : longMin ≤ denoteInteger tok) (hhi : denoteInteger tok ≤ longMax)
-    (l : List Byte) (sk : Bool) (seps : List Byte) (hs : Seps seps) (d : Byte) (rest : List Byte) (hd : d = 44 ∨ d = 41) :
-    readInteger lex (some attrDelims) (G l (tok ++ (seps ++ d :: rest)) sk) .null =
-      (some (denoteInteger tok), G (seps.reverse ++ (tok.reverse ++ l)) (d :: rest) sk, .null) := by
-  have hnd := seps_head_not_digit seps hs d rest hd
-  have hscan := scanInt_token longMin longMax l tok (seps ++ d :: rest) htok (Or.inr hnd)
-  obtain ⟨c, u, rfl, hcs, _, _, _⟩ := isInteger_head tok htok
-  simp only [List.cons_append] at hscan ⊢
-  simp only [readInteger]
-  rw [show (G l (c :: (u ++ (seps ++ d :: rest))) sk).ws = G l (c :: (u ++ (seps ++ d :: rest))) sk from ws_good0 l c _ sk hcs]
-  rw [extractLong_G l c _ sk hcs, hscan]
-  have h1 : ¬ denoteInteger (c :: u) < longMin := by omega
-  have h2 : ¬ denoteInteger (c :: u) > longMax := by omega
-  have hne : (seps ++ d :: rest).isEmpty = false := by
-    obtain ⟨x, y, hxy, _⟩ := hnd
-    rw [hxy]; rfl
-  have hcri := cri_seps lex hcfg seps hs ((c :: u).reverse ++ l) rest d false sk Sev.null hd
-  simp only [List.reverse_cons, List.append_assoc, List.singleton_append] at hcri
-  simp [h1, h2, hne, IStream.failed, Sev.warnIf, hcri]
 
 /-! ### aggregates of INTEGER -/
 
@@ -755,10 +792,14 @@ theorem readReal_tok (ops : FloatOps F) (lex : LexCfg) (hcfg : lex.criSkipsComme
   simp only [hcol, hov, Bool.false_eq_true, if_false, hconv, hrne, List.append_nil]
   simp only [show Sev.null.greater Sev.null = Sev.null from rfl, hcri]
 
-theorem scalarNodeReadAttr_real (env : Env F) (opt : Bool) (s : IStream) :
-    attrSTEPread.scalarNodeReadAttr env .real opt s = scalarNodeRead env .real s := by
-  unfold attrSTEPread.scalarNodeReadAttr
-  rfl
+/-- `ReadReal` with the sentinel test, for a token whose value is not the in-band null -/
+theorem readRealS_tok (ops : FloatOps F) (lex : LexCfg) (hcfg : lex.criSkipsComments = true)
+    (tok : List Byte) (dec : Decimal) (v : F) (htok : isReal tok = true) (hden : denoteReal tok = some dec)
+    (hv : ops.ofDecimal dec = some v) (hnn : ops.isRealNull v = false) (hbuf : lex.realBuf = 0 ∨ tok.length < lex.realBuf)
+    (l : List Byte) (sk : Bool) (seps : List Byte) (hs : Seps seps) (d : Byte) (rest : List Byte) (hd : d = 44 ∨ d = 41) :
+    readRealS ops lex (some attrDelims) (G l (tok ++ (seps ++ d :: rest)) sk) .null =
+      .ok (some v, G (seps.reverse ++ (tok.reverse ++ l)) (d :: rest) sk, .null) :=
+  readRealS_of ops lex _ _ _ _ _ _ (readReal_tok ops lex hcfg tok dec v htok hden hv hbuf l sk seps hs d rest hd) hnn
 
 /-- a REAL attribute: any token of the grammar whose value converts to a double other than the in-band null -/
 theorem attr_real (env : Env F) (strict : Bool) (a : AttrD) (hty : a.ty = .one .real) (hder : a.derived = false)
@@ -793,9 +834,9 @@ theorem attr_real (env : Env F) (strict : Bool) (a : AttrD) (hty : a.ty = .one .
   have e44 : (c == 44) = false := by simpa using hc44
   have e41 : (c == 41) = false := by simpa using hc41
   simp only [hder, Bool.false_eq_true, if_false, e36, e44, e41, Bool.or_self, hty]
-  rw [scalarNodeReadAttr_real]
-  unfold scalarNodeRead
-  simp only [hr, liftOutcome, bind, Except.bind, pure, Except.pure]
+  have hrS := readRealS_of env.ops env.lex _ _ _ _ _ _ hr (show realSentinel env.ops (some v) = false from hnn)
+  unfold attrSTEPread.scalarNodeReadAttr
+  simp only [hrS, liftOutcome, bind, Except.bind, pure, Except.pure]
   simp [realValue, hnn, valueToAtom]
 
 /-! ### composition over a parameter list -/
